@@ -7,15 +7,18 @@ package agreement
 // Drives the REAL Service.mainLoop (goroutine, unbuffered input/output/ready channels exactly as
 // Service.Start wires them), the REAL persistState / asyncPersistenceLoop / persist / restore /
 // decode on a REAL crash-DB accessor, with generated event scripts (zz_verif_sm_gen_test.go) and an
-// emulated demuxLoop written here.  The emulation mirrors, for what matters to the property,
-//   actions.go   pseudonodeAction{attest}.do : make the votes, persistState(done), then
-//                prioritize(persistCompleteEvents); prioritize(voteEvents)
-//                checkpointAction.do         : the real method is called (sends Err on / closes done)
-//                rezeroAction.do             : the real method is called
-//   pseudonode.go pseudonodeVotesTask.execute : a goroutine per attest waits on persistStateDone and
-//                releases the votes only when it was closed without error (drops them otherwise)
-//   demux.go     next(): FIFO queue of prioritized channels; head channel open-but-empty => other
-//                events may be delivered meanwhile (so script events can interleave with a slow persist)
+// emulated demuxLoop written here:
+//   actions.go   the REAL pseudonodeAction.do / checkpointAction.do / rezeroAction.do are called (with
+//                a real demux value for prioritize and a fake pseudonode behind the `pseudonode`
+//                interface); network / crypto / ledger actions are not executed (the scripts already
+//                contain the verification results)
+//   pseudonode.go pseudonodeVotesTask.execute is MIRRORED by the fake pseudonode: a goroutine per
+//                MakeVotes call waits on persistStateDone and writes the votes to its output channel only
+//                when it was closed without error (drops them otherwise); MakeProposals and MakeVotes for
+//                step 0 answer "no keys" (proposal-votes are outside the property)
+//   demux.go     next() is MIRRORED: FIFO over the real demux.queue of prioritized channels; head channel
+//                open-but-empty => other events may be delivered meanwhile (so script events can
+//                interleave with a slow persist)
 // Votes are fabricated (vsmCtx.mkVote, own senders 101 and 102), keyed (sender, round, period, step, value).
 // The moment at which the persistence loop writes is controlled through LedgerReader.Wait (the loop
 // waits for the previous round before every write): the stub ledger hands out a gate channel.
@@ -34,7 +37,7 @@ package agreement
 //   (x1: crash right after that write; x2: after the re-release), restart, rest of the script, then
 //   an adversarial tail (a fresh proposal + timeouts) -- the schedule of DESIGN 8.3 F6.
 //
-// CASE LINE  (c02 params round0 (own ...) (op ...)), ops in execution order:
+// CASE LINE  (c02 params round0 (own ...) (op ...) plan_tag), ops in execution order:
 //   (start restored (action ...))            mainLoop started: 1 = crash state restored and re-emitted
 //   (ev src event (action ...))              event fed to mainLoop and its output; src s = script,
 //                                            k = checkpoint event from the persistence loop, o = own vote
@@ -78,24 +81,83 @@ func (l *vc02Ledger) Wait(round) chan struct{} { return l.gate }
 type vc02Req struct {
 	id     int
 	done   chan error
-	events <-chan externalEvent
+	events <-chan externalEvent // persistCompleteEvents (from the real persistState via demux.queue)
+	out    chan externalEvent   // voteEvents of the fake pseudonode
 	votes  []vsmRankedVote
 	result chan int // 1 released, 0 dropped
 	delay  int
 	fail   bool
 }
 
+// bookkeeping for one channel of the real demux.queue
 type vc02QEntry struct {
 	req    *vc02Req
 	ckpt   bool
-	ready  []vsmEvent
+	ready  []vsmEvent // events already taken off the channel, not yet delivered
 	src    string
-	closed bool
+	closed bool // the channel was drained and closed
+}
+
+// the fake behind Service.loopback
+type vc02Pseudonode struct{ n *vc02Node }
+
+func (f vc02Pseudonode) MakeProposals(ctx context.Context, r round, p period) (<-chan externalEvent, error) {
+	return nil, errPseudonodeNoProposals
+}
+
+func (f vc02Pseudonode) Quit() {}
+
+// MakeVotes mirrors asyncPseudonode.MakeVotes + pseudonodeVotesTask.execute
+func (f vc02Pseudonode) MakeVotes(ctx context.Context, r round, p period, st step, prop proposalValue, persistStateDone chan error) (chan externalEvent, error) {
+	n := f.n
+	if st == propose {
+		return nil, errPseudonodeNoVotes
+	}
+	n.reqSeq++
+	n.st.requests++
+	n.st.steps[fmt.Sprint(uint64(st))]++
+	req := &vc02Req{id: n.reqSeq, done: persistStateDone, out: make(chan externalEvent), result: make(chan int, 1)}
+	if n.reqSeq < len(n.delays) {
+		req.delay, req.fail = n.delays[n.reqSeq], n.fails[n.reqSeq]
+	}
+	if req.id == n.noFail {
+		req.fail = false // the request whose crash points are enumerated is written successfully
+	}
+	var evs []externalEvent
+	for _, snd := range n.own {
+		v, rank := n.c.mkVote(snd, r, p, st, prop)
+		req.votes = append(req.votes, vsmRankedVote{v, rank})
+		evs = append(evs, n.c.voteEvent(true, v, rank, vsmMeta{hnil: true}, nil).ev.(externalEvent))
+	}
+	quit := n.quit
+	go func() {
+		defer close(req.out)
+		// wait until the persist state is flushed, as we don't want to send any vote unless we've completed flushing it to disk
+		select {
+		case err, ok := <-req.done:
+			if ok && err != nil {
+				req.result <- 0 // votes dropped due to disk persistence failure
+				return
+			}
+		case <-quit:
+			return
+		}
+		req.result <- 1
+		for _, e := range evs {
+			select {
+			case req.out <- e:
+			case <-quit:
+				return
+			}
+		}
+	}()
+	n.newReqs = append(n.newReqs, req)
+	return req.out, nil
 }
 
 type vc02Stats struct {
 	cases, ops, events, writes, fails, crashes, restored, fresh, released, dropped int
-	shadowDiffs, shadowPanics, requests                                            int
+	shadowDiffs, shadowPanics, requests, okMismatch                                int
 	points                                                                         map[string]int
 	scenarios                                                                      map[string]int
 	kinds                                                                          map[string]int
@@ -121,7 +183,8 @@ type vc02Node struct {
 	shadow *vsmMachine
 	cur    []action
 	hasCur bool
-	queue  []*vc02QEntry
+	queue  []*vc02QEntry // parallel to s.demux.queue
+	newReqs []*vc02Req
 	reqs   []*vc02Req // enqueued, not yet written
 	byDone map[chan error]*vc02Req
 	reqSeq int
@@ -129,6 +192,7 @@ type vc02Node struct {
 	dead   bool
 	delays []int
 	fails  []bool
+	noFail int
 }
 
 func (n *vc02Node) op(s string) {
@@ -139,7 +203,8 @@ func (n *vc02Node) op(s string) {
 // start: a fresh Service value on the crash DB; the real mainLoop restores / decodes / re-emits
 func (n *vc02Node) start() {
 	n.s = &Service{log: n.log, parameters: parameters{Accessor: n.acc, Ledger: n.led, Clock: makeTestingClock(nil)},
-		tracer: &tracer{log: n.log}, historicalClocks: make(map[round]roundStartTimer)}
+		tracer: &tracer{log: n.log}, historicalClocks: make(map[round]roundStartTimer),
+		demux: &demux{}, loopback: vc02Pseudonode{n}}
 	n.s.persistenceLoop = makeAsyncPersistenceLoop(n.s.log, n.acc, n.led)
 	n.s.persistenceLoop.Start()
 	// shadow machine: the same restore/decode as mainLoop
@@ -214,43 +279,28 @@ func (n *vc02Node) feed(e vsmEvent, src string) {
 // do: the emulated Service.do of the last output
 func (n *vc02Node) do() (created []int, releasedReq []int) {
 	rel := vL()
+	ctx := context.Background()
 	for _, a := range n.cur {
 		switch x := a.(type) {
 		case pseudonodeAction:
-			if x.T != attest {
-				continue // assemble / repropose: proposal-votes are outside the property (not persisted before release)
+			n.newReqs = nil
+			before := len(n.s.demux.queue)
+			x.do(ctx, n.s) // REAL: MakeVotes (fake), persistState, prioritize x 2
+			if len(n.newReqs) == 0 {
+				continue // assemble / repropose: no proposal-votes of our own
 			}
-			n.st.steps[fmt.Sprint(uint64(x.Step))]++
-			n.reqSeq++
-			n.st.requests++
-			req := &vc02Req{id: n.reqSeq, done: make(chan error), result: make(chan int, 1)}
-			if n.reqSeq < len(n.delays) {
-				req.delay, req.fail = n.delays[n.reqSeq], n.fails[n.reqSeq]
+			req := n.newReqs[0]
+			q := n.s.demux.queue
+			if len(n.newReqs) != 1 || len(q) != before+2 || q[before+1] != (<-chan externalEvent)(req.out) {
+				n.t.Fatalf("c02: attest action did not prioritize (persistCompleteEvents, voteEvents): %d new channels", len(q)-before)
 			}
-			for _, snd := range n.own {
-				v, rank := n.c.mkVote(snd, x.Round, x.Period, x.Step, x.Proposal)
-				req.votes = append(req.votes, vsmRankedVote{v, rank})
-			}
-			// pseudonodeVotesTask.execute: wait until the persist state is flushed
-			quit := n.quit
-			go func() {
-				select {
-				case err, ok := <-req.done:
-					if ok && err != nil {
-						req.result <- 0
-						return
-					}
-					req.result <- 1
-				case <-quit:
-				}
-			}()
-			req.events = n.s.persistState(req.done) // REAL: encode(s.persist*) + Enqueue
+			req.events = q[before]
 			n.byDone[req.done] = req
 			n.reqs = append(n.reqs, req)
 			n.queue = append(n.queue, &vc02QEntry{req: req, ckpt: true, src: "k"}, &vc02QEntry{req: req, src: "o"})
 			created = append(created, req.id)
 		case checkpointAction:
-			x.do(context.Background(), n.s) // REAL
+			x.do(ctx, n.s) // REAL
 			req := n.byDone[x.done]
 			if x.done == nil || req == nil {
 				continue // a scripted checkpoint event (no completion channel)
@@ -261,23 +311,27 @@ func (n *vc02Node) do() (created []int, releasedReq []int) {
 					ent = q
 				}
 			}
+			if ent == nil {
+				n.t.Fatalf("c02: checkpoint for a request without a vote channel")
+			}
 			if <-req.result == 1 {
-				for _, rv := range req.votes {
+				i := 0
+				for e := range req.out { // the fake pseudonode writes the votes and closes the channel
+					rv := req.votes[i]
+					i++
 					rel = append(rel, n.c.tRawVote(rv.v.R))
-					if ent != nil {
-						ent.ready = append(ent.ready, n.c.voteEvent(true, rv.v, rv.rank, vsmMeta{hnil: true}, nil))
-					}
+					ent.ready = append(ent.ready, vsmEvent{ev: e, term: n.c.voteEvent(true, rv.v, rv.rank, vsmMeta{hnil: true}, nil).term, kind: "vote"})
 					n.st.released++
 				}
 				releasedReq = append(releasedReq, req.id)
 			} else {
+				for range req.out {
+				}
 				n.st.dropped += len(req.votes)
 			}
-			if ent != nil {
-				ent.closed = true
-			}
+			ent.closed = true
 		case rezeroAction:
-			x.do(context.Background(), n.s) // REAL
+			x.do(ctx, n.s) // REAL
 		}
 	}
 	n.op(vT(vSym("do"), rel))
@@ -307,11 +361,18 @@ func (n *vc02Node) write(ok bool) *vc02Req {
 	}
 	n.led.gate <- struct{}{}
 	ev := <-req.events
+	if _, open := <-req.events; open {
+		n.t.Fatalf("c02: persistence loop left the events channel open")
+	}
 	n.s.persistenceLoop.crashDb = n.acc
 	ce, isCkpt := ev.(checkpointEvent)
-	if !isCkpt || (ce.Err == nil) != ok {
-		n.t.Fatalf("c02: persistence loop answered %+v for ok=%v", ev, ok)
+	if !isCkpt {
+		n.t.Fatalf("c02: persistence loop answered %+v", ev)
 	}
+	if (ce.Err == nil) != ok {
+		n.st.okMismatch++ // injected failure not reported (or a spurious one): the case records what the loop REPORTED
+	}
+	ok = ce.Err == nil
 	for _, q := range n.queue {
 		if q.req == req && q.ckpt {
 			q.ready = append(q.ready, vsmEvent{ev: ce, term: vT(vSym("ckpt"), uint64(ce.Round), uint64(ce.Period), uint64(ce.Step), ce.Err != nil), kind: "ckpt"})
@@ -353,6 +414,7 @@ func (n *vc02Node) popReady() (vsmEvent, string, *vc02Req, bool) {
 		}
 		if h.closed {
 			n.queue = n.queue[1:]
+			n.s.demux.queue = n.s.demux.queue[1:] // demux.next: the channel got closed, remove it from the queue
 			continue
 		}
 		break
@@ -396,6 +458,7 @@ type vc02Script struct {
 	events []vsmEvent
 	delays []int
 	fails  []bool
+	noFail int
 }
 
 // runPlan executes one schedule on a fresh crash DB and returns the case line and the number of requests
@@ -413,9 +476,10 @@ func vc02Run(t *testing.T, sc *vc02Script, plan vc02Plan, st *vc02Stats, seq int
 	bad.Handle.Close() // keeps the handle: every Atomic on it fails with "sql: database is closed"
 	log := serviceLogger{Logger: logging.Base()}
 	n := &vc02Node{t: t, c: sc.c, r0: sc.r0, own: []uint64{101, 102}, acc: acc, bad: bad, log: log, st: st,
-		led: &vc02Ledger{next: sc.r0, ver: sc.c.ver, gate: make(chan struct{})}, delays: sc.delays, fails: sc.fails}
+		led: &vc02Ledger{next: sc.r0, ver: sc.c.ver, gate: make(chan struct{})}, delays: sc.delays, fails: sc.fails, noFail: plan.crashAt}
 	st.cases++
 	st.points[plan.name()]++
+	tag := fmt.Sprintf("plan_%s_req%d", strings.ReplaceAll(plan.name(), "+", "_"), plan.crashAt)
 	n.start()
 	script := sc.events
 	si := 0
@@ -424,6 +488,7 @@ func vc02Run(t *testing.T, sc *vc02Script, plan vc02Plan, st *vc02Stats, seq int
 		n.start()
 		if plan.second > 0 && vc02HasAttest(n.cur) {
 			plan.crashAt, plan.point, plan.second = n.reqSeq+1, []int{vc02B, vc02B, vc02D}[plan.second], 0
+			n.noFail = plan.crashAt
 		} else {
 			plan.crashAt, plan.second = 0, 0
 		}
@@ -506,7 +571,7 @@ func vc02Run(t *testing.T, sc *vc02Script, plan vc02Plan, st *vc02Stats, seq int
 		}
 		sb.WriteString(o)
 	}
-	sb.WriteString("))")
+	sb.WriteString(") " + tag + ")")
 	return sb.String(), nreq
 }
 
@@ -560,7 +625,10 @@ func TestVerifC02(t *testing.T) {
 			sc.delays = append(sc.delays, d)
 			sc.fails = append(sc.fails, rnd.Intn(9) == 0)
 		}
-		nreq := run(sc, vc02Plan{tail: rnd.Intn(2) == 0})
+		nreq := run(sc, vc02Plan{})
+		if rnd.Intn(2) == 0 {
+			run(sc, vc02Plan{tail: true})
+		}
 		for k := 1; k <= nreq && k <= maxAtt; k++ {
 			for pt := vc02A0; pt <= vc02D; pt++ {
 				run(sc, vc02Plan{crashAt: k, point: pt})
@@ -577,6 +645,7 @@ func TestVerifC02(t *testing.T) {
 		"persist_requests": st.requests, "writes": st.writes, "failed_writes": st.fails, "crashes": st.crashes,
 		"restarts_restored": st.restored, "restarts_fresh": st.fresh, "votes_released": st.released, "votes_dropped": st.dropped,
 		"crash_points": st.points, "attest_steps": st.steps, "scenarios": st.scenarios,
+		"write_result_differs_from_injection(must be 0)": st.okMismatch,
 		"shadow_action_diffs(must be 0)": st.shadowDiffs, "script_cut_short_by_panic": st.shadowPanics,
 	})
 	if st.shadowDiffs != 0 {
